@@ -37,7 +37,7 @@ Modelled == {"driver", "account-type", "leverage", "leverage-mode", "fee-rate", 
 
 T == Traces[tid]
 A == T.after
-F == T.fresh
+F == Data.hdr.fresh[T.fresh_id]      \* the probe in a never-used process (one record per probe)
 E == T.hdr.exp
 
 Field(r, c) ==
